@@ -38,7 +38,7 @@ func describe(s *prog.Script) string {
 	return fmt.Sprintf("#%d c=[%s] h=[%s]%s", s.Tag, actsString(s.Client), actsString(s.Handler), ret)
 }
 
-var parkPoints = []string{"conn.newstream.afterCreate", "conn.invoke.afterCreate", "manager.newstream.beforeSet", "conn.invoke.afterInvoke", "manager.sem.acquired", "stream.rawwrite.locked"}
+var parkPoints = []string{"conn.newstream.afterMeta", "conn.invoke.afterMeta", "conn.newstream.afterCreate", "conn.invoke.afterCreate", "manager.newstream.beforeSet", "conn.invoke.afterInvoke", "manager.sem.acquired", "stream.rawwrite.locked"}
 
 func scenario(id string, seed uint64) runner.Result {
 	r := &payload.SplitMix{S: seed}
@@ -56,7 +56,11 @@ func scenario(id string, seed uint64) runner.Result {
 		}
 		// server keeps sending after the client has gone away: leftovers for the next RPC to meet
 		if !s.Unary && r.Intn(4) == 0 {
-			s.Handler = append(s.Handler, prog.Act{Op: 'S', Size: 3 + r.Intn(5)})
+			h := s.Handler
+			s.Handler = append(append([]prog.Act{}, h...), prog.Act{Op: 'S', Size: 3 + r.Intn(5)})
+			if !prog.ValidateStrict(s) {
+				s.Handler = h // both sides would send into full buffers forever
+			}
 		}
 		g := r.Intn(ngo)
 		groups[g] = append(groups[g], s)
@@ -81,6 +85,16 @@ func scenario(id string, seed uint64) runner.Result {
 		st, _ := census.QuiesceOr(p.Reached(), rig.Watchdog)
 		if st == "ready" {
 			census.Quiesce(rig.Watchdog)
+			if r.Intn(3) == 0 {
+				// the RPC whose goroutine is parked here is abandoned at this very point
+				for _, l := range x.Logs() {
+					if started, done := l.ClientState(); started && !done {
+						l.CancelRPC()
+						l.Script.Clean = false
+					}
+				}
+				census.Quiesce(rig.Watchdog)
+			}
 		}
 		p.Release()
 	}
@@ -146,6 +160,16 @@ func scenario(id string, seed uint64) runner.Result {
 		}
 		if s.Clean && !closed && !hung && l.ClientDone {
 			fails = append(fails, completeness(l, evs)...)
+		}
+		// metadata is scoped to its own RPC
+		if ran, _ := l.HandlerState(); ran {
+			md, has := l.HandlerMetadata()
+			switch {
+			case len(s.Meta) == 0 && has && len(md) > 0:
+				fails = append(fails, fmt.Sprintf("rpc %d attached no metadata but its handler saw %v (it belongs to another rpc)", s.Tag, md))
+			case len(s.Meta) > 0 && fmt.Sprint(md) != fmt.Sprint(s.Meta):
+				fails = append(fails, fmt.Sprintf("rpc %d attached metadata %v but its handler saw %v", s.Tag, s.Meta, md))
+			}
 		}
 	}
 	for _, e := range []string{} {
